@@ -12,6 +12,6 @@ done
 # leave quick evidence in place (that is what gets committed)
 for p in $(seq -f 'C%02g' 1 20); do ./run.sh $p quick >/dev/null 2>&1; done
 python3 tools/manifest.py >/dev/null
-tools/selftest.py --jobs=8 | tail -1
+tools/selftest.py --jobs=12 | tail -1
 tools/seedtest.py --jobs=6 2>&1 | tail -1
 exit $bad
